@@ -32,6 +32,16 @@ structure Facts where
   mergeErrorsReturned : Bool
   /-- `mergeRoots`: a listed name found nowhere is skipped only when `skipUnreadable` -/
   missingSkippedOnlyIfSkipUnreadable : Bool
+  /-- `MergeRows`, `mergeValues`, `Insert/Update/Delete` (vtable_common.go): the decision points
+      the hand-written model of `Model/Row.lean` / `Model/Table.lean` follows -/
+  mergeStatusCond : String
+  mergeStatusBranchesAsExpected : Bool
+  mergeColumnSwitchAsExpected : Bool
+  deletedRowsKeepColumns : Bool
+  hideAndAdjAsExpected : Bool
+  mergeValuesAsExpected : Bool
+  insertRefusedCond : String
+  statementsMergeAndStoreAsExpected : Bool
   /-- `loadRootFromAny`: the condition under which the next location is tried -/
   loadAnySkipCond : String
   loadAnyReturnsOtherErrors : Bool
